@@ -631,7 +631,41 @@ class World(object):
         got = part.number_of_staves
         if got != exp:
             self.res.violation("V1-stale-view", "number_of_staves", "number_of_staves=%s but registered objects imply %s (answer depends on call history)" % (got, exp))
-        return [got, exp]
+        # the time and signature maps must be those of a part that holds the same objects and has no history:
+        # rebuild one from the model in canonical order and compare the maps as functions
+        import numpy as np
+
+        fresh = S.Part("P0", quarter_duration=self.case["q0"])
+        for t, q in part.quarter_durations():
+            fresh.set_quarter_duration(int(t), int(q))
+        same_start = {}
+        for i in sorted(m.obj):
+            ms, me = m.obj[i]
+            if ms is None and me is None:
+                continue
+            fresh.add(_mk(self.case["pool"][i], i), ms, me)
+            if ms is not None:
+                same_start.setdefault((self.case["pool"][i], ms), []).append(i)
+        for t in sorted(m.explicit):
+            fresh.get_or_add_point(t)  # explicitly created (still empty) points are part of the state
+        ambiguous = set(c for (c, t), l in same_start.items() if len(l) > 1)
+        pts = m.point_times()
+        ts = np.arange(pts[0], pts[-1] + 1)
+        diffs = []
+        for name, classes in (("quarter_map", ("Measure", "TimeSignature")), ("beat_map", ("Measure", "TimeSignature")), ("time_signature_map", ("TimeSignature",)), ("key_signature_map", ("KeySignature",)), ("measure_map", ("Measure", "TimeSignature")), ("quarter_duration_map", ())):
+            if ambiguous & set(classes):
+                continue  # 'latest' legitimately depends on insertion order
+            out = []
+            for p in (part, fresh):
+                try:
+                    out.append(np.nan_to_num(np.asarray(getattr(p, name)(ts), dtype=float), nan=-987654.25).round(9).tolist())
+                except Exception as e:
+                    out.append("raised:" + type(e).__name__)
+            if out[0] != out[1]:
+                diffs.append(name)
+        if diffs:
+            self.res.violation("V1-stale-view", diffs[0], "%s of the part differs from the same map of a freshly built part with the same objects (the answer depends on the call history)" % ", ".join(diffs), site="maps")
+        return [got, exp, diffs]
 
 
 def execute(case, keep_log=False):
